@@ -76,6 +76,21 @@ def hierarchy(rng):
     return feats
 
 
+def gtf_annotation(rng):
+    feats = []
+    for g in range(rng.choice([1, 2])):
+        for t in range(rng.choice([1, 2])):
+            pos = 1000 * g + 100 * t + 1
+            for e in range(rng.choice([1, 2, 3])):
+                ln = rng.choice([20, 50])
+                feats.append(imp.mkfeat(seqid="chr1", type_=rng.choice(["exon", "exon", "CDS"]), s=pos, e=pos + ln, strand="+",
+                                        attrs=[["gene_id", ["G%d" % g]], ["transcript_id", ["G%d.t%d" % (g, t)]]]))
+                pos += ln + rng.choice([5, 40])
+    if not any(f["type"] == "exon" for f in feats):
+        feats[0]["type"] = "exon"
+    return feats
+
+
 CALLS = ["getitem", "getitem_absent", "all_features", "features_of_type", "children", "parents", "region", "interfeatures",
          "create_introns", "create_splice_sites", "merge", "children_bp", "children_bp_merge", "bed12", "count", "featuretypes",
          "seqids", "iter_by_parent_childs"]
@@ -100,7 +115,8 @@ def gen_cases(rng, tier):
             new = gen_feats(rng, rng.choice([1, 2, 4]), pool_old + ["x"])
         else:
             new = [dict(f) for f in old]
-        cases.append({"k": "create", "mode": mode, "old": old, "new": new, "force": i % 2 == 0, "emptied": i % 5 == 4})
+        cases.append({"k": "create", "mode": mode, "old": old, "new": new, "force": i % 2 == 0, "emptied": i % 5 == 4,
+                      "form": ["objects", "text", "path"][(i // 2) % 3]})
     m = 150 if tier == "quick" else 3000
     for i in range(m):
         calls = [{"c": rng.choice(CALLS), "r": rng.randrange(10 ** 6)} for _ in range(rng.choice([3, 5, 8, 12]))]
@@ -110,6 +126,10 @@ def gen_cases(rng, tier):
             for _ in range(rng.choice([1, 2])):
                 calls.insert(rng.randrange(len(calls)), {"c": rng.choice(FAILED_WRITES), "r": rng.randrange(10 ** 6)})
         case = {"k": "reads", "feats": hierarchy(rng), "calls": calls}
+        if i % 4 == 3:
+            # a database built by the GTF importer (genes and transcripts derived; no index on the bin column)
+            case["gtf"] = True
+            case["feats"] = gtf_annotation(rng)
         if i % 4 == 1:
             case["dialect_gap"] = rng.choice(["order", "order", "trailing semicolon", "repeated keys"])
         cases.append(case)
@@ -257,8 +277,18 @@ def run_impl(c):
             gc.collect()
             h0 = sha(path)
             try:
-                db = gffutils.create_db([imp.to_feature(x) for x in c["new"]], path, force=c["force"],
-                                        merge_strategy="create_unique", verbose=False)
+                objs = [imp.to_feature(x) for x in c["new"]]
+                form = c.get("form", "objects")
+                if form == "text":
+                    db = gffutils.create_db("\n".join(str(o) for o in objs) + "\n", path, from_string=True, force=c["force"],
+                                            merge_strategy="create_unique", verbose=False)
+                elif form == "path":
+                    src = os.path.join(d, "new.gff")
+                    with open(src, "w") as fh:
+                        fh.write("\n".join(str(o) for o in objs) + "\n")
+                    db = gffutils.create_db(src, path, force=c["force"], merge_strategy="create_unique", verbose=False)
+                else:
+                    db = gffutils.create_db(objs, path, force=c["force"], merge_strategy="create_unique", verbose=False)
                 db.conn.close()
                 del db
                 out["outcome"] = ["ok", None]
@@ -277,7 +307,14 @@ def run_impl(c):
             # a stored dialect that lacks a key (hand-written, or from an older version): opening such a file is a read
             from gffutils import constants
             kw["dialect"] = dict((k, v) for k, v in constants.dialect.items() if k != c["dialect_gap"])
-        db = gffutils.create_db([imp.to_feature(x) for x in c["feats"]], path, merge_strategy="create_unique", verbose=False, **kw)
+        if c.get("gtf"):
+            from gffutils import constants
+            gd = dict(constants.dialect)
+            gd.update({"fmt": "gtf", "keyval separator": " ", "quoted GFF2 values": True, "field separator": "; ", "trailing semicolon": True})
+            db = gffutils.create_db([imp.to_feature(x, gd) for x in c["feats"]], path, merge_strategy="create_unique", verbose=False,
+                                    dialect=gd)
+        else:
+            db = gffutils.create_db([imp.to_feature(x) for x in c["feats"]], path, merge_strategy="create_unique", verbose=False, **kw)
         db.conn.close()
         del db
         gc.collect()
@@ -331,7 +368,7 @@ def coq_case(c, o):
     obs = "(mkReadObs %s %s %s %s %s %s)" % (imp.coq_tables(o["before"]), imp.coq_tables(o["after"]), L.b(o["meta_same"]),
                                              L.b(o["bytes_same"]), L.lst(tr, "stmt"),
                                              L.lst([L.ERR[e] for e in o["errors"]], "err"))
-    return "CReads %s %s %s" % (rows(c["feats"]), calls, obs)
+    return "CReads %s %s %s %s" % (L.b(bool(c.get("gtf"))), rows(c["feats"]), calls, obs)
 
 
 def labels(c, o):
@@ -340,6 +377,7 @@ def labels(c, o):
         yield "ids=" + c["mode"]
         yield "force=%s" % c["force"]
         yield "emptied=%s" % bool(c.get("emptied"))
+        yield "new-input-as=" + c.get("form", "objects")
         yield "outcome=" + (o.get("outcome", ["?"])[0])
     else:
         for x in c["calls"]:
